@@ -368,8 +368,37 @@ def run_shard(params):
     return sh.result()
 
 
+def replay_files(sh, case):
+    """fixed witness: a data file and an index file kept under /verif/witnesses"""
+    from zv import recfs
+    from zv.observe import observe, first_diff
+    here = os.path.dirname(os.path.dirname(os.path.dirname(os.path.abspath(__file__))))
+    FSM = recfs.install()
+    recfs.LOG.enabled = False
+    with open(os.path.join(here, case['data']), 'rb') as f:
+        dbytes = f.read()
+    with open(os.path.join(here, case['index']), 'rb') as f:
+        ibytes = f.read()
+    scratch = os.path.join(sh.scratch, 'var')
+    fs = FSM.FileStorage(put(scratch, dbytes))
+    base = observe(fs)
+    fs.close()
+    fs = FSM.FileStorage(put(scratch, dbytes, ibytes))
+    try:
+        used = getattr(fs, '_used_index', 0)
+        df = first_diff(observe(fs), base)
+    finally:
+        fs.close()
+    if df:
+        mech = case['mechanism_if_accepted'] if used else 'c09:state-with-index-differs-from-full-scan'
+        sh.violation(mech, {'diff': df, 'index_used': used, 'witness': case['data']}, case)
+
+
 def replay(case, scratch):
     logging.disable(logging.CRITICAL)
     sh = Shard({'scratch': scratch, 'budget_s': 600})
+    if 'data' in case:
+        guarded(sh, 'c09', case, lambda: replay_files(sh, case))
+        return sh.violations
     guarded(sh, 'c09', case, lambda: run_case(sh, case['seed'], case.get('tier', 'quick'), case))
     return sh.violations
